@@ -260,3 +260,26 @@ func Standstill(marker string, wait time.Duration) string {
 
 // StandstillWhyNot says why the last Standstill call found no proof (diagnostics only).
 var StandstillWhyNot string
+
+// AtRest waits (REAL time, at most limit) until no other goroutine of the process is running,
+// runnable or in a system call in three consecutive scans 2 ms apart, and reports whether that was
+// reached.  Unlike Settle it does not give up silently: a caller whose verdict depends on "whatever
+// the code was going to do synchronously has been done" must treat false as undecided.
+func AtRest(limit time.Duration) bool {
+	deadline := time.Now().Add(limit)
+	quiet := 0
+	for time.Now().Before(deadline) {
+		runtime.Gosched()
+		ts := syscall.Timespec{Nsec: 2_000_000}
+		syscall.Nanosleep(&ts, nil)
+		if othersBusy() {
+			quiet = 0
+			continue
+		}
+		quiet++
+		if quiet >= 3 {
+			return true
+		}
+	}
+	return false
+}
